@@ -13,6 +13,13 @@ pub struct C09;
 
 const ALPHABET: [&str; 96] = ["x", "y", "foo", "a1", "1", "2", "10", "0", "3.5", "0x1F", "1e3", "2/3", "4i", "u8", "f64", " ", " ", "  ", "\n", "\n", "\r\n", "\t", ":=", "=", "+=", "+", "-", "*", "/", "^", "**", "%", "==", "!=", "<", "<=", ">", ">=", "&&", "||", "!", "'", "(", ")", "[", "]", "{", "}", "<", ">", "|", ",", ";", ":", "::", ".", "..", "..=", "...", "~", "#", "@", "?", "=>", "->", "<-", "_", "\"", "\"a b\"", "```", "```mech", "~~~", "--", "//", "%%", "├", "└", "│", "╭", "╯", "─", "✓", "✗", "⊻", "∈", "∪", "⋈", "Δ", "·", "…", "🙂", "é", "e\u{301}", "👨‍👩‍👧", "\u{feff}", "\u{200f}"];
 
+/// Mechdown vocabulary (static, collected from the tag()/leaf! literals and keyword strings of src/syntax/src/mechdown.rs and base.rs)
+const MD_ALPHABET: [&str; 120] = ["$$", "$", "$$ ", "```", "```\n", "~~~\n", "```ebnf\n", "```mermaid\n", "```mech\n", "```mech:disabled\n", "```mech:hidden\n", "```mech:ex1\n", "```mec\n", "```mika\n", "```python\n", "```latex\n", "```tex\n", "```math\n", "```equation\n", "```diagram\n", "```chart\n", "```prompt\n", "```output\n",
+  "[", "](", ")", "![", "[^1]", "[^1]:", "[a]()", "[a](b)", "![a](b)", "{{", "}}", "{", "}", "%%", "%% ", ">", "> ", "(a) ", "(1) ", "1. ", "2) ", "- ", "* ", "+ ", "- [ ] ", "- [x] ", "**", "__", "~~", "^^", "``", "`", "`x`", "|", "|---|", "| a | b |\n", "|:--:|---|\n", "---", "===", "\n===============\n", "\n---------------\n", "\n", "\n\n", "\r\n", "  ", "\t",
+  "(!)>", "(i)>", "(?)>", "(*)>", "(x)>", ">>", "<<", "?>", "@", "#", "## ", "### ", "<img>", "https://x.y", "«", "»", "⸢", "⸥", "(╭⦿╯", "╭", "╯", "⦿", "⸌", "⸍", "ᓀ", "ᓂ", "ᗢ", "Ɔ∞", "∞C", "-◡", "◡-", "›⌣", "⌣‹", "›─", "─‹",
+  "x = ;", "x := 1", "term", "abstract:", "author:", "date:", "kicker:", "subtitle:", "hero:", "{eq:1}", "{fig:1}", "{@", "Fig 1.", "word", "é", "🙂"];
+const FENCE_INFO: [&str; 30] = ["ebnf", "mermaid", "mech", "mech:disabled", "mech:hidden", "mech:a", "mec", "mec:b", "mika", "python", "latex", "tex", "math", "equation", "eq", "diagram", "chart", "prompt", "output", "table", "figures", "list", "footnote", "citation", "abstract", "section", "img", "float", "🤖", ""];
+
 fn mutate(src: &str, rng: &mut Rng) -> String {
   let mut g: Vec<char> = src.chars().collect();
   let n = 1 + rng.below(3);
@@ -26,7 +33,7 @@ fn mutate(src: &str, rng: &mut Rng) -> String {
       3 => { g.insert(i, *rng.pick(&['[', ']', '(', ')', '{', '}', '|', '"', '<', '>'])); }
       4 => { g.truncate(i); }
       5 => { let l = (1 + rng.below(6) as usize).min(g.len() - i); g.drain(i..i + l); }
-      6 => { let t: Vec<char> = rng.pick(&ALPHABET).chars().collect(); for (k, c) in t.iter().enumerate() { g.insert(i + k, *c); } }
+      6 => { let t: Vec<char> = (if rng.chance(1, 2) { *rng.pick(&ALPHABET) } else { *rng.pick(&MD_ALPHABET) }).chars().collect(); for (k, c) in t.iter().enumerate() { g.insert(i + k, *c); } }
       7 => { g.insert(i, '\n'); }
       _ => { let l = (1 + rng.below(8) as usize).min(g.len() - i); let seg: Vec<char> = g[i..i + l].to_vec(); let at = rng.below(g.len() as u64) as usize; for (k, c) in seg.iter().enumerate() { g.insert(at + k, *c); } }
     }
@@ -50,7 +57,7 @@ fn fnv(s: &str) -> String { let mut h: u64 = 0xcbf29ce484222325; for b in s.byte
 
 impl Prop for C09 {
   fn id(&self) -> &'static str { "C09" }
-  fn rule(&self) -> String { "inputs: (i) random strings of 1-60 tokens over the Mech token alphabet (operators, brackets, fence sigils, box-drawing and set/table operators, digits, identifiers, quotes, CR/LF/tab, combining sequences, ZWJ emoji, BOM, RTL mark); (ii) the 632 corpus programs and generated programs with 1-3 mutations (delete / duplicate / swap / insert bracket / truncate / splice); (iii) every .mec document in the repository: all line-boundary prefixes plus seeded inner cuts; (iv) valid generated programs with a unique marker identifier per statement. Oracle per input: no panic escapes parser::parse, the result is a tree or a ParserErrorReport with >= 1 context whose ranges lie inside the input, TextFormatter::format_error returns, two parses give the same Debug rendering (also across processes through digests), an accepted generated program contains every marker, and a parse before and after an interpreter session agree. Hook monitors: LoopGuard (three identical consecutive cursors in a hand-written loop) and the step budget. Non-trivial = every input is".into() }
+  fn rule(&self) -> String { "inputs: (i) random strings of 1-60 tokens over the Mech token alphabet (operators, brackets, fence sigils, box-drawing and set/table operators, digits, identifiers, quotes, CR/LF/tab, combining sequences, ZWJ emoji, BOM, RTL mark); (ii) the 632 corpus programs and generated programs with 1-3 mutations (delete / duplicate / swap / insert bracket / truncate / splice); (iii) every .mec document in the repository: all line-boundary prefixes plus seeded inner cuts; (iv) valid generated programs with a unique marker identifier per statement; (v) random strings over a Mechdown vocabulary (fence openers for every info string, $$, links, images, footnotes, lists, checkboxes, quotes, callouts, tables, rules, Mika faces), fenced blocks of each of 30 info strings x both sigils with token bodies, and small documents with 1-3 mutations. Oracle per input: no panic escapes parser::parse, the result is a tree or a ParserErrorReport with >= 1 context whose ranges lie inside the input, TextFormatter::format_error returns, two parses give the same Debug rendering (also across processes through digests), an accepted generated program contains every marker, and a parse before and after an interpreter session agree. Hook monitors: LoopGuard (three identical consecutive cursors in a hand-written loop) and the step budget. Non-trivial = every input is".into() }
   fn assumptions(&self) -> Vec<String> { vec![
     "range bounds: 1 <= row <= lines+1, 1 <= col <= width(row)+2, start <= end (ParseError::new sets end.col = start.col + 1)".into(),
     "an input that needs more than the logical step budget (2*10^7 attempted consumptions in quick, 2*10^8 in thorough) is inconclusive, never a verdict".into(),
@@ -88,6 +95,31 @@ impl Prop for C09 {
       let markers: Vec<String> = p.stmts.iter().filter_map(|s| s.trim_start_matches('~').split(|c: char| !c.is_alphanumeric()).next().map(|x| x.to_string())).filter(|m| m.starts_with('v')).collect();
       out.push(Case { id: format!("generated;n={}", i), cell: "generated-valid".into(), input: json!({"text": p.text(), "markers": markers}) });
       out.push(Case { id: format!("generated-mutated;n={}", i), cell: "generated-mutated".into(), input: json!({"text": mutate(&p.text(), &mut rng)}) });
+    }
+    // (v) Mechdown token strings, and fenced blocks of every info string with token bodies
+    for i in 0..1200 * scale {
+      let mut rng = Rng::keyed(seed, &format!("c09md{}", i));
+      let n = 1 + rng.below(if i % 4 == 0 { 4 } else { 40 }) as usize;
+      let mut s = String::new();
+      for _ in 0..n { if rng.chance(2, 3) { s.push_str(*rng.pick(&MD_ALPHABET)); } else { s.push_str(*rng.pick(&ALPHABET)); } }
+      out.push(Case { id: format!("md-tokens;n={}", i), cell: "md-tokens".into(), input: json!({"text": s}) });
+    }
+    for (ii, info) in FENCE_INFO.iter().enumerate() {
+      for sigil in ["```", "~~~"] {
+        for j in 0..(6 * scale) {
+          let mut rng = Rng::keyed(seed, &format!("c09fence{}{}{}", ii, sigil, j));
+          let n = rng.below(12) as usize;
+          let mut body = String::new();
+          for _ in 0..n { if rng.chance(1, 2) { body.push_str(*rng.pick(&MD_ALPHABET)); } else { body.push_str(*rng.pick(&ALPHABET)); } if rng.chance(1, 4) { body.push('\n'); } }
+          let close = match rng.below(5) { 0 => String::new(), 1 => format!("\n{}", sigil), _ => format!("\n{}\n", sigil) };
+          let pre = if rng.chance(1, 3) { "para\n\n" } else { "" };
+          out.push(Case { id: format!("fence;info={};sigil={};j={}", ii, sigil, j), cell: "md-fence".into(), input: json!({"text": format!("{}{}{}\n{}{}", pre, sigil, info, body, close)}) });
+        }
+      }
+    }
+    // documents with 1-3 mutations
+    for (path, text) in corpus::mec_files(4 * 1024) {
+      for m in 0..(if tier == Tier::Quick { 2 } else { 16 }) { let mut rng = Rng::keyed(seed, &format!("c09docmut{}{}", path, m)); out.push(Case { id: format!("docmut;path={};m={}", path, m), cell: "document-mutated".into(), input: json!({"text": mutate(&text, &mut rng)}) }); }
     }
     // (iii) documents: prefixes
     for (path, text) in corpus::mec_files(if tier == Tier::Quick { 6 * 1024 } else { 64 * 1024 }) {
